@@ -72,7 +72,7 @@ def run(ctx):
     ctx.assumptions += ["byte/row/column quantities < 2^32", "theorems assume Summarized/shapeOK of C02 (checked on every real tree by ./check C02)"]
     ctx.extra_lean_dirs = ["C02"]
     ctx.regen()
-    ctx.prove(["TsVerif.C06.Props", "TsVerif.C06.CursorProps"], "TsVerif/C06/Audit.lean")
+    ctx.prove(["TsVerif.C06.Props", "TsVerif.C06.CursorProps", "TsVerif.C06.NodeProps"], "TsVerif/C06/Audit.lean")
     driver = ctx.build_driver("tsv-c06")
     explorer = ctx.cargo_bin("c06")
     langdump = ctx.cunit("cunit_c02")
@@ -115,6 +115,9 @@ def run(ctx):
     stack_bad = 0
     hidden_extra_bad = 0
     hidden_missing_trees = 0
+    par = {"parchk": 0, "parzw": 0, "parbad": 0, "parflat": 0, "nschk": 0, "nsout": 0, "nsbad": 0, "nsflat": 0}
+    ns_bad_cases = []
+    par_bad_cases = []
     per_clause = {}
     max_fanout = 0
     for line in out.split("\n"):
@@ -139,6 +142,12 @@ def run(ctx):
             hidden_extra_bad += 1
         if kv.get("hiddenmissing", "0") == "1":
             hidden_missing_trees += 1
+        for k in par:
+            par[k] += int(kv.get(k, "0") or 0)
+        if (int(kv.get("parbad", "0") or 0) or int(kv.get("parflat", "0") or 0)) and len(par_bad_cases) < 3:
+            par_bad_cases.append("%s: %s" % (cid, specs.get(cid, "")[:120]))
+        if (int(kv.get("nsbad", "0") or 0) or int(kv.get("nsflat", "0") or 0)) and len(ns_bad_cases) < 3:
+            ns_bad_cases.append("%s: %s" % (cid, specs.get(cid, "")[:120]))
         fan = int(kv.get("fanout", "0") or 0)
         max_fanout = max(max_fanout, fan)
         nontrivial = False
@@ -181,6 +190,19 @@ def run(ctx):
     ctx.oblige("corr:anonLeafOK-holds-on-real-trees(hypothesis of named_child_spec)", anon_hyp_bad == 0, "%d trees" % anon_hyp_bad)
     ctx.oblige("corr:StackOK-linkage-holds-on-every-cursor-stack(hypothesis of cursor_next_sibling_spec)", stack_bad == 0, "%d stacks" % stack_bad)
     ctx.oblige("corr:hiddenExtraOK-holds-on-real-trees(hypothesis of field_name_for_child_spec)", hidden_extra_bad == 0, "%d trees" % hidden_extra_bad)
+    ctx.oblige("corr:parent_spec-hypotheses-hold-on-every-non-empty-node-of-real-trees(pathOK: slot ids distinct along the search, "
+               "ancestors report visible children; and ported ts_node_parent = parentOnPath)", par["parbad"] == 0 and (par["parchk"] > 0 or evals == 0),
+               "%d nodes checked, %d zero-width nodes excluded by the hypothesis, %d bad %s" % (par["parchk"], par["parzw"], par["parbad"], "; ".join(par_bad_cases)))
+    ctx.oblige("corr:parentOnPath=parent-in-the-flattened-tree(on every node checked)", par["parflat"] == 0, "%d differ %s" % (par["parflat"], "; ".join(par_bad_cases)))
+    ctx.oblige("corr:next_sibling_spec-conclusion-holds-wherever-its-hypotheses-hold(non-empty node, nsPathOK: no zero-width raw node follows "
+               "within the parent; nodes failing the hypothesis are counted as outside the theorem)", par["nsbad"] == 0 and (par["nschk"] > 0 or evals == 0),
+               "%d nodes checked, %d outside, %d bad %s" % (par["nschk"], par["nsout"], par["nsbad"], "; ".join(ns_bad_cases)))
+    ctx.oblige("corr:head(laterOnPath)=next-sibling-in-the-flattened-tree(on every node checked)", par["nsflat"] == 0,
+               "%d differ %s" % (par["nsflat"], "; ".join(ns_bad_cases)))
+    ctx.coverage["next_sibling_spec_hypotheses"] = {"nodes_checked": par["nschk"], "nodes_outside_the_theorem(zero-width raw node follows)": par["nsout"],
+                                                    "conclusion_failures": par["nsbad"], "laterOnPath_vs_flatten_next_sibling_differences": par["nsflat"]}
+    ctx.coverage["parent_spec_hypotheses"] = {"non_empty_nodes_checked": par["parchk"], "zero_width_nodes_outside_the_theorem": par["parzw"],
+                                              "hypothesis_or_conclusion_failures": par["parbad"], "parentOnPath_vs_flatten_parent_differences": par["parflat"]}
     ctx.coverage["trees_with_hidden_missing_node"] = hidden_missing_trees
     ctx.coverage.update({
         "evaluations": evals, "distinct_nontrivial": len(distinct),
